@@ -46,3 +46,6 @@ def run(repo, res, tier):
     # character-step function over the delimiter characters of every grammar's comment table)
     from .. import lexsim
     lexsim.rule_comment_kind(repo, res)
+    # comment delimiters and white space inside quotes / units are text, not layout
+    from .. import lexsim as _ls9
+    _ls9.rule_preserve_kind(repo, res)
